@@ -797,6 +797,29 @@ func c15Degenerate(c *core.Ctx, e *c15Env, fast []gen.KeyPair) {
 			setFnKey(ch, func(k *intoto.Key) { k.KeyType, k.Scheme, k.KeyVal.Public = "ed25519", "ed25519", hx })
 		})
 	}
+	// key types and schemes in another spelling (capitals, blanks), with material that contradicts
+	// the type they resemble or has the wrong size: whether such a spelling is taken for the type
+	// or refused, it must not reach code that assumes well-formed material
+	for _, sp := range [][2]string{{"RSA", "rsassa-pss-sha256"}, {"Rsa", "RSASSA-PSS-SHA256"}, {"rsa ", "rsassa-pss-sha256"},
+		{"ED25519", "ed25519"}, {"Ed25519", "Ed25519"}, {" ed25519", "ed25519"}, {"ed25519\n", "ed25519"},
+		{"ECDSA", "ecdsa-sha2-nistp256"}, {"Ecdsa", "ECDSA-SHA2-NISTP256"}, {"ecdsa\t", "ecdsa-sha2-nistp256"},
+		{"rsa", "RSASSA-PSS-SHA256"}, {"ed25519", "ED25519"}, {"ecdsa", "Ecdsa-Sha2-Nistp256"}} {
+		sp := sp
+		mats := []struct {
+			name string
+			pub  func() string
+		}{{"RSA PEM", func() string { return pemOf(rsaKey) }}, {"Ed25519 hex", func() string { return edKey.Pub.KeyVal.Public }},
+			{"4 hex chars", func() string { return "abcd" }}, {"130 hex chars", func() string { return strings.Repeat("ab", 65) }}, {"empty", func() string { return "" }}}
+		for _, m := range mats {
+			m := m
+			add(fmt.Sprintf("functionary key: key type %q scheme %q with %s as public part", sp[0], sp[1], m.name), func(ch *gen.Chain) {
+				setFnKey(ch, func(k *intoto.Key) { k.KeyType, k.Scheme, k.KeyVal.Public = sp[0], sp[1], m.pub() })
+			})
+		}
+		add(fmt.Sprintf("functionary key: key type %q scheme %q with the material it had (ECDSA PEM)", sp[0], sp[1]), func(ch *gen.Chain) {
+			setFnKey(ch, func(k *intoto.Key) { k.KeyType, k.Scheme = sp[0], sp[1] })
+		})
+	}
 	add("functionary key: garbage certificate field", func(ch *gen.Chain) {
 		setFnKey(ch, func(k *intoto.Key) { k.KeyVal.Certificate = "garbage" })
 	})
